@@ -39,3 +39,20 @@ struct Mixed : Base {
 };
 }
 void verif_use() { verif_ctl::Bad b; b.compare(); verif_ctl::Good g; g.compare(); verif_ctl::Mixed m; m.compare(); }
+// control of the STATIC-STATE rule: a cache that outlives the check which filled it (must be reported); a static mutex is not state
+#include <map>
+#include <mutex>
+#include <string>
+namespace verif_ctl {
+  inline int cached_length(const std::string& file) {
+    static std::mutex m;
+    static std::map<std::string, int> files;
+    std::lock_guard<std::mutex> lock(m);
+    auto p = files.find(file);
+    if (p == files.end()) {
+      p = files.insert({file, static_cast<int>(file.size())}).first;
+    }
+    return p->second;
+  }
+}
+int verif_use2() { return verif_ctl::cached_length("a"); }
